@@ -1236,7 +1236,15 @@ result_t NumberDataType::parseInput(const string inputStr, unsigned int* parsedV
           }
           value = (unsigned int)unsignedValue;
         }
-        if (strEnd == nullptr || strEnd == str || (*strEnd != 0 && *strEnd != '.')) {
+        if (strEnd == nullptr || strEnd == str) {
+          return RESULT_ERR_INVALID_NUM;  // invalid value
+        }
+        if (*strEnd == '.') {  // tolerate (and truncate) fraction digits only
+          do {
+            strEnd++;
+          } while (*strEnd >= '0' && *strEnd <= '9');
+        }
+        if (*strEnd != 0) {
           return RESULT_ERR_INVALID_NUM;  // invalid value
         }
       } else {
